@@ -869,6 +869,11 @@ static mi_segment_t* mi_segment_os_alloc( size_t required, size_t page_alignment
     mi_commit_mask_create_full(&commit_mask);
   }
   else {
+    if (commit && required > 0) {
+      // a huge segment does not use the commit mask and must be committed in full, but the (arena) commit failed: out of memory
+      _mi_arena_free(segment,segment_size,0,memid);
+      return NULL;
+    }
     // at least commit the info slices
     const size_t commit_needed = _mi_divide_up((*pinfo_slices)*MI_SEGMENT_SLICE_SIZE, MI_COMMIT_SIZE);
     mi_assert_internal(commit_needed>0);
